@@ -201,6 +201,56 @@ def run(repo='/repo', tier='quick'):
     else:
         res.holds('C07.c', 'ended-state-silent', 'no path from the entry of %s in the ended state %s reaches a hand-out of the decompression buffer' % (DECOMP, state0), f.loc)
 
+    # ---------------- C07.g decompression disabled in the configuration
+    res.rule('C07.g', 'zero layers when response decompression is disabled: every feasible path to a decompressor creation either passes the true edge of cfg->response_decompression_enabled, or creates exactly the coding found in response_content_encoding_processing with no library store to that field since the RESPONSE_HEADERS hook ran (the documented user override)')
+    hf = db.get('htp_tx_state_response_headers')
+    creations = hf.calls('htp_gzip_decompressor_create')
+    res.floor('C07.g', 'decompressor creations in htp_tx_state_response_headers', len(creations), 2)
+    en_key = [P.canon(hf.cond_of(b)[0]) for b in hf.blocks if hf.cond_of(b) and 'response_decompression_enabled' in S(hf.cond_of(b)[0])]
+    if not en_key:
+        raise AnalysisBroken('C07.g: no test of response_decompression_enabled in htp_tx_state_response_headers')
+    flags = [n for n in __import__('sa.guards', fromlist=['x']).flag_locals(hf)]
+    for cb, ci, cc in creations:
+        npth, bad = 0, None
+        for atoms, events, end, seq in P.enum_paths_seq(hf, (hf.entry, -1), stop=lambda bb, ii, st: (bb, ii) == (cb, ci), max_paths=200000, must_reach=cb):
+            if end[0] != 'stop':
+                continue
+            # feasibility with respect to the flag locals (assigned literals only): replay the path
+            cur, ok = {}, True
+            hook_at = None
+            stores_after_hook = 0
+            for n_, x in enumerate(seq):
+                if x[0] == 'stmt':
+                    for a in nodes(x[3], lambda y: y.get('k') == 'assign' and y['op'] == '=' and strip(y['l']).get('k') == 'var' and strip(y['l'])['name'] in flags and is_lit(strip(y['r']))):
+                        cur[strip(a['l'])['name']] = strip(a['r'])['v']
+                    for d in nodes(x[3], lambda y: y.get('k') == 'decl'):
+                        for v in d['vars']:
+                            if v['name'] in flags and 'init' in v and is_lit(strip(v['init'])):
+                                cur[v['name']] = strip(v['init'])['v']
+                    if any(h == 'hook_response_headers' for h, c in P.hook_runs(x[3])):
+                        hook_at = n_
+                        stores_after_hook = 0
+                    if hook_at is not None and n_ > hook_at and P.assigns_field(x[3], 'response_content_encoding_processing'):
+                        stores_after_hook += 1
+                else:
+                    l, op, r = x[1]
+                    if l in cur and r == '0' and op in ('==', '!='):
+                        if (cur[l] == 0) != (op == '=='):
+                            ok = False
+                            break
+            if not ok:
+                continue
+            npth += 1
+            facts = [a for a, bb in atoms]
+            enabled = any(a[0] == en_key[0][0] and a[1] == '!=' and a[2] == '0' for a in facts)
+            override = hook_at is not None and stores_after_hook == 0 and P.K(cc['args'][1]) == 'tx->response_content_encoding_processing'
+            if not (enabled or override):
+                bad = [a for a in facts if 'enabled' in a[0] or a[0] in flags]
+        tgt = [P.K(a['l']) for a in nodes(hf.blocks[cb]['stmts'][ci], lambda y: y.get('k') == 'assign' and strip(y['r']) is cc)]
+        key = '%s=create(%s)%s' % (tgt[0] if tgt else '?', P.K(cc['args'][1]), ':in-loop' if any(cb in body for h, body in C.loops(hf)) else '')
+        res.check(bad is None and npth > 0, 'C07.g', key, 'all %d feasible paths to this creation have decompression enabled (or are the user override)' % npth,
+                  'a decompressor is created on a path where cfg->response_decompression_enabled is 0 and the coding does not come from the user: the body is decoded although zero layers are configured (path facts %s)' % (bad,), cc['loc'])
+
     # ---------------- C07.f header bytes carried across calls are appended, not overwritten
     res.rule('C07.f', 'a stream header that may arrive in pieces is accumulated at its running offset (memcpy destination is buffer + counter for the counter that is then advanced by the same length)')
     acc = P.accumulate_sites(f)
